@@ -23,6 +23,8 @@
 #ifndef POPS
 #define POPS 0x03           /* operations of process 2: bit 0 put, 1 control put */
 #endif
+/* a failed check ends its path: every reported failure is a first deviation, not a consequence of an earlier one */
+#define CHECK(c, msg) do { VF_ASSERT(c, msg); VF_ASSUME(c); } while (0)
 static struct S_class_2eFIX8_3a_3aFilePersister fp1, fp2;
 /* reference */
 static uint8_t r_has[MAXSEQ + 1], r_len[MAXSEQ + 1], r_dat[MAXSEQ + 1][2]; static int r_hasc; static uint32_t r_ca, r_cb;
@@ -33,20 +35,20 @@ static void probe(struct S_class_2eFIX8_3a_3aFilePersister *p, int j)
 {
   uint32_t s = nondet_u32(); VF_ASSUME(s >= 1 && s <= MAXSEQ); cx_probe[j] = s;
   uint8_t out[8]; int n = (int)vf_fp_get(p, s, out);
-  VF_ASSERT(!__vf_exc_pending, "C27: no exception"); __vf_exc_pending = 0;
+  CHECK(!__vf_exc_pending, "C27: no exception"); __vf_exc_pending = 0;
   if (r_has[s]) {
-    VF_ASSERT(n >= 0, "C27: every message whose store completed is retrievable after the crash and reopen");
-    VF_ASSERT(n < 0 || (n == r_len[s] && out[0] == r_dat[s][0] && (n < 2 || out[1] == r_dat[s][1])), "C27: stored messages are returned byte-identical after the crash and reopen");
-  } else VF_ASSERT(n < 0, "C27: no sequence number returns bytes that were never stored for it");
+    CHECK(n >= 0, "C27: every message whose store completed is retrievable after the crash and reopen");
+    CHECK(n < 0 || (n == r_len[s] && out[0] == r_dat[s][0] && (n < 2 || out[1] == r_dat[s][1])), "C27: stored messages are returned byte-identical after the crash and reopen");
+  } else CHECK(n < 0, "C27: no sequence number returns bytes that were never stored for it");
   uint32_t ga = 0, gb = 0; uint8_t ok = vf_fp_getc(p, &ga, &gb) & 1;
-  VF_ASSERT(ok == r_hasc, "C27: a control record is reported iff one was stored");
-  if (r_hasc) VF_ASSERT(!ok || (ga == r_ca && gb == r_cb), "C27: the control record equals the last completed control store");
+  CHECK(ok == r_hasc, "C27: a control record is reported iff one was stored");
+  if (r_hasc) CHECK(!ok || (ga == r_ca && gb == r_cb), "C27: the control record equals the last completed control store");
 }
 int main(void)
 {
   vf_fp_ctor(&fp1, 0);
   uint8_t iok = vf_fp_init(&fp1, (uint8_t*)".", 1, (uint8_t*)"s", 1, 0) & 1;
-  VF_ASSERT(iok && !__vf_exc_pending, "C27: initialise on an empty directory succeeds");
+  CHECK(iok && !__vf_exc_pending, "C27: initialise on an empty directory succeeds");
   /* ---------------- process 1 */
   int fl = 0; uint32_t fa = 0, fb = 0; uint8_t fd0 = 0, fd1 = 0, flen = 0;      /* operation in flight at the crash: 0 none, 1 put, 2 control put */
   for (int i = 0; i < K; i++) {
@@ -61,18 +63,18 @@ int main(void)
       uint8_t d[2] = { d0, d1 };
       uint8_t ok = vf_fp_put(&fp1, a, d, len) & 1;
       if (!vf_fs_crashed) {
-        VF_ASSERT(ok == (a != 0 && !r_has[a]), "C27: storing to 0 or to an occupied number is refused, otherwise accepted");
+        CHECK(ok == (a != 0 && !r_has[a]), "C27: storing to 0 or to an occupied number is refused, otherwise accepted");
         if (a != 0 && !r_has[a]) { r_has[a] = 1; r_len[a] = len; r_dat[a][0] = d0; r_dat[a][1] = d1; }
       } else if (a != 0 && !r_has[a]) { fl = 1; fa = a; fd0 = d0; fd1 = d1; flen = len; }
     } else if ((OPS & 2) && op == 1) {
       uint8_t ok = vf_fp_putc(&fp1, a, b) & 1;
-      if (!vf_fs_crashed) { VF_ASSERT(ok, "C27: control put succeeds"); r_hasc = 1; r_ca = a; r_cb = b; }
+      if (!vf_fs_crashed) { CHECK(ok, "C27: control put succeeds"); r_hasc = 1; r_ca = a; r_cb = b; }
       else { fl = 2; fa = a; fb = b; }
     } else if ((OPS & 4) && op == 2) {
       uint8_t out[8]; int n = (int)vf_fp_get(&fp1, a, out);
-      if (!vf_fs_crashed) VF_ASSERT((n >= 0) == (a != 0 && r_has[a]), "C27: get hits exactly the stored numbers");
+      if (!vf_fs_crashed) CHECK((n >= 0) == (a != 0 && r_has[a]), "C27: get hits exactly the stored numbers");
     }
-    VF_ASSERT(!__vf_exc_pending, "C27: no exception"); __vf_exc_pending = 0;
+    CHECK(!__vf_exc_pending, "C27: no exception"); __vf_exc_pending = 0;
     if (!vf_fs_crashed) cx_done = (uint8_t)(i + 1);
   }
   cx_crash_at = vf_fs_crashed ? vf_fs_crash_at : 0;
@@ -80,16 +82,16 @@ int main(void)
   vf_fs_new_process();
   vf_fp_ctor(&fp2, 0);
   iok = vf_fp_init(&fp2, (uint8_t*)".", 1, (uint8_t*)"s", 1, 0) & 1;
-  VF_ASSERT(iok && !__vf_exc_pending, "C27: reopening after the crash succeeds"); __vf_exc_pending = 0;
+  CHECK(iok && !__vf_exc_pending, "C27: reopening after the crash succeeds"); __vf_exc_pending = 0;
   if (fl == 1) {               /* the put in flight: absent, or present with exactly its bytes */
     uint8_t out[8]; int n = (int)vf_fp_get(&fp2, fa, out);
-    VF_ASSERT(n < 0 || (n == flen && out[0] == fd0 && (n < 2 || out[1] == fd1)), "C27: the store in flight at the crash is absent or complete (no sequence number returns bytes never stored for it)");
+    CHECK(n < 0 || (n == flen && out[0] == fd0 && (n < 2 || out[1] == fd1)), "C27: the store in flight at the crash is absent or complete (no sequence number returns bytes never stored for it)");
     if (n >= 0) { r_has[fa] = 1; r_len[fa] = flen; r_dat[fa][0] = fd0; r_dat[fa][1] = fd1; }
   } else if (fl == 2) {        /* the control put in flight: last completed record or the new one */
     uint32_t ga = 0, gb = 0; uint8_t ok = vf_fp_getc(&fp2, &ga, &gb) & 1;
     if (ok && ga == fa && gb == fb) { r_hasc = 1; r_ca = fa; r_cb = fb; }
   }
-  VF_ASSERT(!__vf_exc_pending, "C27: no exception"); __vf_exc_pending = 0;
+  CHECK(!__vf_exc_pending, "C27: no exception"); __vf_exc_pending = 0;
   probe(&fp2, 0);
 #ifdef VF_COVER
   if (cx_crash_at != 0 && fl == 1) VF_REACH();          /* a crash inside a message store is reachable */
@@ -105,12 +107,12 @@ int main(void)
     if ((POPS & 1) && op == 0) {
       uint8_t d[2] = { d0, d1 };
       uint8_t ok = vf_fp_put(&fp2, a, d, len) & 1;
-      VF_ASSERT(ok == (a != 0 && !r_has[a]), "C27: after reopening, storing to an unoccupied number is accepted (occupied or 0 refused)");
+      CHECK(ok == (a != 0 && !r_has[a]), "C27: after reopening, storing to an unoccupied number is accepted (occupied or 0 refused)");
       if (a != 0 && !r_has[a]) { r_has[a] = 1; r_len[a] = len; r_dat[a][0] = d0; r_dat[a][1] = d1; }
     } else if ((POPS & 2) && op == 1) {
-      uint8_t ok = vf_fp_putc(&fp2, a, b) & 1; VF_ASSERT(ok, "C27: control put succeeds after reopening"); r_hasc = 1; r_ca = a; r_cb = b;
+      uint8_t ok = vf_fp_putc(&fp2, a, b) & 1; CHECK(ok, "C27: control put succeeds after reopening"); r_hasc = 1; r_ca = a; r_cb = b;
     }
-    VF_ASSERT(!__vf_exc_pending, "C27: no exception"); __vf_exc_pending = 0;
+    CHECK(!__vf_exc_pending, "C27: no exception"); __vf_exc_pending = 0;
     probe(&fp2, j + 1);
   }
   VF_REACH();
